@@ -4,16 +4,17 @@
   `PlanWf.wf` follows the engine's run-time resolution order, which never fails as long as SOME field of the batch
   ends in `.name`: a reference `b.k` evaluated against a batch `[a.id, a.k]` silently reads `a.k`.  A well-formed plan
   must not rely on that fallback: the column a QUALIFIED reference reads at run time has to be the column of exactly
-  that qualified name.  The name of a column is its physical field name (`outSchema`) or its logical one
+  that qualified name (or an unqualified column of that name: a computed column below its SubqueryAlias) — never a
+  column that belongs to a different relation.  The name of a column is its physical field name (`outSchema`) or its logical one
   (`logSchema`: the same columns, position by position, with the qualifiers SubqueryAlias nodes give them — the
   physical planner drops those nodes, so `x.q1` over `(SELECT … AS q1) AS x` reads the physical field `q1`).
 
-  Scopes are as in `PlanWf.wfP`: the batch the operator receives, then the enclosing queries' batches.  A reference is
-  judged in the FIRST scope in which the engine's resolution succeeds (the scope the executor reads from).
+  Scopes are as in `PlanWf.wfP`: the batch the operator receives, then — inside subquery plans — the enclosing queries'
+  batches.  Outside subquery expressions there is exactly one scope and the check is a statement about the column the
+  executor reads; inside them a reference may denote a column of any enclosing scope (SQL scoping).
 
   `badP` lists the offending references; `qualP = no offending reference`; the driver demands of every rule that it
-  introduces none (`noNewBad`): a correlated reference inside a not-yet-decorrelated subquery expression may already be
-  shadowed in the binder's plan, which is not the rule's doing.
+  introduces none (`noNewBad`): whatever the binder's plan already has is not the rule's doing.
 -/
 import IQE.Engine.PlanWf
 namespace IQE.Engine.PlanWf
@@ -51,21 +52,28 @@ def nameAt (s : Schema) (i : Nat) (q : String) : Bool :=
   | some f => f.qname == q
   | none => false
 
-/-- the column the engine reads for `r.n` in this scope is called `r.n`, physically or logically -/
-def exactAt (sc : QScope) (r n : String) : Bool :=
-  match resolve sc.1 (some r) n with
-  | some i => nameAt sc.1 i (r ++ "." ++ n) || nameAt sc.2 i (r ++ "." ++ n)
+/-- the field at position `i` belongs to no relation and is called `n` -/
+def bareAt (s : Schema) (i : Nat) (n : String) : Bool :=
+  match s[i]? with
+  | some f => f.rel.isNone && f.name == n
   | none => false
 
-/-- the first scope in which the engine resolves the reference -/
+/-- the column the engine reads for `r.n` in this scope is called `r.n`, physically or logically — or it is a column `n`
+    that belongs to no relation at all, physically and logically (PredicatePushdown moves `x.q > 0` below the SubqueryAlias
+    `x`, onto the Project that computes the unqualified `q`: no other relation's column is read) -/
+def exactAt (sc : QScope) (r n : String) : Bool :=
+  match resolve sc.1 (some r) n with
+  | some i => nameAt sc.1 i (r ++ "." ++ n) || (nameAt sc.2 i (r ++ "." ++ n) || (bareAt sc.1 i n && bareAt sc.2 i n))
+  | none => false
+
+/-- the first scope in which the engine resolves the reference (diagnostics) -/
 def firstScope (scopes : List QScope) (r n : String) : Option QScope :=
   scopes.find? (fun sc => (resolve sc.1 (some r) n).isSome)
 
-/-- a qualified reference reads the column of exactly its qualified name -/
-def qualRef (scopes : List QScope) (r n : String) : Bool :=
-  match firstScope scopes r n with
-  | some sc => exactAt sc r n
-  | none => false
+/-- a qualified reference reads the column of exactly its qualified name: in the batch the operator receives or, inside a
+    subquery plan, in the batch of an enclosing query (SQL scoping; subquery expressions with correlated references are not
+    executed as they stand, SubqueryDecorrelation turns them into joins, whose keys then have exactly one scope) -/
+def qualRef (scopes : List QScope) (r n : String) : Bool := scopes.any (fun sc => exactAt sc r n)
 
 mutual
 /-- the qualified references of an expression that read some other column (as `r.n`) -/
